@@ -272,31 +272,38 @@ def refine (c : Ctx) (r : Routine) (rank : Nat) : M Out := do
   let ab ← rounds c r seqlen rank l n ab
   pure { a := ab.a, b := ab.b, seqlen := seqlen }
 
-/-- final scan: maximum of the left edge, minimum of the right edge (reads in the C++ order;
-the assignments `maxleft = &first[..]` / `minright = &first[..]` evaluate the read again) -/
+/-- final scan, left edge of sequence `i`: `maxleft` (the assignment `maxleft = &first[..]` evaluates the read again) -/
+def edgeLeft (c : Ctx) (r : Routine) (o : Out) (i : Nat) (ml : Option Int) : M (Option Int) :=
+  if aget o.a i > 0 then do
+    let x ← rd c i (aget o.a i - 1)
+    match ml with
+    | none => pure (some x)
+    | some v =>
+      if takesMax c.lt r x v then do
+        let x' ← rd c i (aget o.a i - 1)
+        pure (some x')
+      else pure (some v)
+  else pure ml
+
+/-- final scan, right edge of sequence `i`: `minright` -/
+def edgeRight (c : Ctx) (o : Out) (i : Nat) (mr : Option Int) : M (Option Int) :=
+  if aget o.b i < aget o.seqlen i then do
+    let x ← rd c i (aget o.b i)
+    match mr with
+    | none => pure (some x)
+    | some v =>
+      if c.lt x v then do
+        let x' ← rd c i (aget o.b i)
+        pure (some x')
+      else pure (some v)
+  else pure mr
+
+/-- final scan: maximum of the left edge, minimum of the right edge (reads in the C++ order) -/
 def edges (c : Ctx) (r : Routine) (o : Out) : List Nat → Option Int → Option Int → M (Option Int × Option Int)
   | [], ml, mr => pure (ml, mr)
-  | i :: is, ml, mr => do
-    let ml' ← if aget o.a i > 0 then do
-        let x ← rd c i (aget o.a i - 1)
-        match ml with
-        | none => pure (some x)
-        | some v =>
-          if takesMax c.lt r x v then do
-            let x' ← rd c i (aget o.a i - 1)
-            pure (some x')
-          else pure (some v)
-      else pure ml
-    let mr' ← if aget o.b i < aget o.seqlen i then do
-        let x ← rd c i (aget o.b i)
-        match mr with
-        | none => pure (some x)
-        | some v =>
-          if c.lt x v then do
-            let x' ← rd c i (aget o.b i)
-            pure (some x')
-          else pure (some v)
-      else pure mr
+  | i :: is, ml, mr =>
+    edgeLeft c r o i ml >>= fun ml' =>
+    edgeRight c o i mr >>= fun mr' =>
     edges c r o is ml' mr'
 
 def totalLen (c : Ctx) : Nat := c.runs.toList.foldl (fun acc x => acc + x.size) 0
